@@ -152,6 +152,10 @@ def run_family(prog, fam_name, setup, post, contracts=None, force_contract=(), b
         return fam
     fam.paths = len(results)
     orphans = stats.pop("orphans", [])
+    if not results and not orphans:
+        # every path was assumed away: the pre-state could not even be built (e.g. the real
+        # constructor raised for every well-formed argument) - never a silent pass
+        fam.error = "unsupported: vacuous family, every path was assumed away (pre-state could not be built)"
     fam.stats = stats
     for oi, (opath, dead) in enumerate(orphans):
         for (label, pc, cond, info) in dead:
@@ -193,6 +197,8 @@ def run_family(prog, fam_name, setup, post, contracts=None, force_contract=(), b
 
 
 def props_for_label(label):
+    if label.startswith("regex-literal"):
+        return ["C14", "C16", "C17"]
     if label.startswith("builtin:"):
         return ["C17", "C02"]
     if label.startswith("memo:"):
